@@ -144,7 +144,7 @@ impl CovComputer {
                     }
                 }
 
-                if total > 0 {
+                if !buffer.is_empty() {
                     // optimise this with pre-sized string
                     let result = buffer
                         .par_iter()
